@@ -17,6 +17,7 @@ def run(tier, seed):
     replay_known(rep, "C09")
     q = tier == "quick"
     run_bounded(rep, "C09", [("general", {}, "calls", 450 if q else 15000), ("calls", {"calls_focus": True, "max_funcs": 3}, "cover16", 100 if q else 2000),
+                             ("general", {}, "version", 250 if q else 6000),
                              ("modules", {"modules": True, "collide": False}, "modules-rl", 300 if q else 6000)],
                 budget_s=45 if q else 1200, seed=seed)
     rep.bounded["evaluations"] += n
